@@ -109,6 +109,29 @@ def lean_sources_hash() -> str:
     return h.hexdigest()
 
 
+def cached_lean_audit(audit_file: str):
+    """`lake env lean Audit/<file>` (prints the axioms of generated theorems), cached under .lake by the hash of ALL Lean sources
+    (generated files included): returns (returncode, output)."""
+    cache = LEAN / ".lake" / "gen_audit_cache.json"
+    h = lean_sources_hash()
+    data = {}
+    if cache.exists():
+        try:
+            data = json.loads(cache.read_text())
+        except Exception:
+            data = {}
+    ent = data.get(audit_file)
+    if ent and ent.get("hash") == h and ent.get("rc") == 0:
+        return 0, ent["out"]
+    r = _run(["lake", "env", "lean", f"Audit/{audit_file}"], cwd=LEAN, timeout=3600)
+    out = r.stdout + r.stderr
+    if r.returncode == 0:
+        data[audit_file] = {"hash": h, "rc": 0, "out": out}
+        cache.parent.mkdir(parents=True, exist_ok=True)
+        cache.write_text(json.dumps(data))
+    return r.returncode, out
+
+
 def strip_comments(src: str) -> str:
     # remove block comments (possibly nested) and line comments
     out, depth, i = [], 0, 0
